@@ -736,6 +736,11 @@ def _retrying(fn):
             return fn(*dargs, **dkw)
 
     wrapper.__name__ = getattr(fn, "__name__", "np_fn")
+    if isinstance(fn, _np.ufunc):
+        # ufunc methods stay reachable on the wrapper (np.add.at, np.maximum.reduce, np.multiply.outer, ...)
+        for meth in ("at", "reduce", "outer", "accumulate", "reduceat"):
+            if hasattr(fn, meth):
+                setattr(wrapper, meth, getattr(fn, meth))
     return wrapper
 
 
